@@ -54,9 +54,12 @@ fn scalar(r: &mut Rng) -> Value {
     }
 }
 
-fn expectation(r: &mut Rng, used: &mut Vec<String>) -> ClaimSpec {
+fn expectation(r: &mut Rng, used: &mut Vec<String>, time_claims: bool) -> ClaimSpec {
     loop {
-        let c = match r.below(10) {
+        let c = match r.below(if time_claims { 12 } else { 10 }) {
+            // exp / nbf as ordinary expected claims (parsers without the default time validators)
+            10 => ClaimSpec::Exp(format!("20{:02}-0{}-1{}T0{}:00:00{}", 30 + r.below(10), 1 + r.below(9), r.below(9), r.below(9), *r.pick(&["Z", "+00:00", "-05:00"]))),
+            11 => ClaimSpec::Nbf(format!("20{:02}-0{}-1{}T0{}:00:00{}", 10 + r.below(9), 1 + r.below(9), r.below(9), r.below(9), *r.pick(&["Z", "+00:00", "-05:00"]))),
             0 => ClaimSpec::Iss(ascii!(r, 1 + r.usize(8))),
             1 => ClaimSpec::Sub(ascii!(r, 1 + r.usize(8))),
             2 => ClaimSpec::Aud(ascii!(r, 1 + r.usize(8))),
@@ -164,6 +167,16 @@ fn derive(r: &mut Rng, e: &[ClaimSpec], class: u64) -> Vec<ClaimSpec> {
                             b[3] = if b[3] == b'9' { b'8' } else { b[3] + 1 };
                             ClaimSpec::Iat(String::from_utf8(b).unwrap_or_default())
                         }
+                        ClaimSpec::Exp(old) => {
+                            let mut b = old.into_bytes();
+                            b[3] = if b[3] == b'9' { b'8' } else { b[3] + 1 };
+                            ClaimSpec::Exp(String::from_utf8(b).unwrap_or_default())
+                        }
+                        ClaimSpec::Nbf(old) => {
+                            let mut b = old.into_bytes();
+                            b[3] = if b[3] == b'9' { b'8' } else { b[3] + 1 };
+                            ClaimSpec::Nbf(String::from_utf8(b).unwrap_or_default())
+                        }
                         o => o,
                     }
                 } else {
@@ -236,9 +249,18 @@ fn gen(ctx: &GenCtx, i: u64, prop: &str) -> Option<Run> {
     };
     let mut used: Vec<String> = vec![];
     let mut expect: Vec<ClaimSpec> = vec![];
+    // (one run in forty: many registrations at once)
+    let scale = i % 40 == 39;
     let ne = if prop == "C15" { 1 + r.usize(4) } else { r.usize(3) };
     for _ in 0..ne {
-        expect.push(expectation(&mut r, &mut used));
+        expect.push(expectation(&mut r, &mut used, !default_validators));
+    }
+    if scale {
+        for k in 0..12 + r.usize(40) {
+            let key_k = format!("e{:02}", k);
+            used.push(key_k.clone());
+            expect.push(ClaimSpec::Custom { key: key_k, value: scalar(&mut r) });
+        }
     }
     let mut validators: Vec<ValidatorSpec> = vec![];
     let nv = if prop == "C16" { 1 + r.usize(5) } else if r.chance(1, 4) { 1 + r.usize(2) } else { 0 };
